@@ -336,8 +336,8 @@ inline std::string build_gkf(const Plan& plan, int* n_steps = nullptr, std::stri
 {
   const double PI = 3.14159265358979323846, RAD2GON = 200 / PI;
   static const char* ID[] = {"A", "B", "C", "D", "E", "F", "G", "H"};
-  std::string d = "<?xml version=\"1.0\" ?>\n<gama-local xmlns=\"http://www.gnu.org/software/gama/gama-local\">\n<network axes-xy=\"ne\" angles=\"left-handed\">\n"
-                  "<parameters sigma-apr=\"10\" conf-pr=\"0.95\" tol-abs=\"1000\" sigma-act=\"apriori\" />\n"
+  std::string d = std::string("<?xml version=\"1.0\" ?>\n<gama-local xmlns=\"http://www.gnu.org/software/gama/gama-local\">\n<network axes-xy=\"ne\" angles=\"left-handed\">\n") +
+                  "<parameters sigma-apr=\"10\" conf-pr=\"0.95\" tol-abs=\"1000\" sigma-act=\"apriori\"" + std::string(plan.geti("klat", 0) ? (plan.geti("klat", 0) % 2 ? " latitude=\"50\"" : " latitude=\"50\" ellipsoid=\"bessel\"") : "") + " />\n" +
                   "<points-observations distance-stdev=\"5.0\" direction-stdev=\"10.0\" angle-stdev=\"10.0\" zenith-angle-stdev=\"10.0\" azimuth-stdev=\"10.0\">\n";
   auto num = [](double v, int prec) { char b[64]; snprintf(b, sizeof b, "%.*f", prec, v); return std::string(b); };
   auto gon = [&](double rad) { double g = rad * RAD2GON; while (g < 0) g += 400; while (g >= 400) g -= 400; return g; };
@@ -363,6 +363,10 @@ inline std::string build_gkf(const Plan& plan, int* n_steps = nullptr, std::stri
       double ori = 0.37 * (a + 1);                        // the unknown orientation of the set of directions at A
       std::string hts; if ((v / 7) % 6 == 1) hts += " from_dh=\"1.500\""; if ((v / 42) % 6 == 1) hts += " to_dh=\"1.300\"";
       std::string sd = (v / 252) % 4 == 1 ? " stdev=\"7.5\"" : "";
+      // one observation in twenty-five states an extreme but well-formed value instead of the computed one
+      static const char* QUIRK[] = {"1e-320", "0", "400", "1e300", "-0.00001", "399.99999999", "1e-9"};
+      const char* quirk = (v / 1008) % 25 == 1 ? QUIRK[(v / 25200) % 7] : nullptr;
+      if (quirk) { d += std::string("<") + K[k] + (k == 2 ? std::string(" bs=\"") + ID[b] + "\" fs=\"" + ID[c] + "\"" : std::string(" to=\"") + ID[b] + "\"") + " val=\"" + quirk + "\"" + sd + " />\n"; n++; if (shape) *shape += fmt("q%d,", k); continue; }
       switch (k) {
         case 0: d += std::string("<direction to=\"") + ID[b] + "\" val=\"" + num(gon(bearing(B) - ori) + e * 0.01, 5) + "\"" + sd + " />\n"; break;
         case 1: d += std::string("<distance to=\"") + ID[b] + "\" val=\"" + num(hd + e, 4) + "\"" + sd + " />\n"; break;
@@ -405,14 +409,14 @@ inline std::string tidy_network(sim::Rng& g)
     for (int i = 0; i < 3; i++) stk("kp", {i, 0, 0});
     for (int i = 3; i < np; i++) stk("kp", {i, g.chance(1, 4) ? 4 : 1, g.chance(1, 2) ? 0 : 1});
     struct O { long long kind, from, to, third, v; }; std::vector<O> obs;
-    for (int s = 0; s < 3; s++) obs.push_back({0, s, (s + 1) % 3, 0, (long long)g.below(100000)});       // orientation of every fixed station
+    for (int s = 0; s < 3; s++) obs.push_back({0, s, (s + 1) % 3, 0, (long long)g.below(1000)});       // orientation of every fixed station
     for (int P = 3; P < np; P++) {
-      for (int s = 0; s < 2; s++) { obs.push_back({0, s, P, 0, (long long)g.below(100000)}); obs.push_back({g.chance(1, 2) ? 1 : 3, s, P, 0, (long long)g.below(100000)}); }
-      obs.push_back({4, 0, P, 0, (long long)g.below(100000)}); obs.push_back({4, 1, P, 0, (long long)g.below(100000)});
-      obs.push_back({2, P, 0, 1, (long long)g.below(100000)});
+      for (int s = 0; s < 2; s++) { obs.push_back({0, s, P, 0, (long long)g.below(1000)}); obs.push_back({g.chance(1, 2) ? 1 : 3, s, P, 0, (long long)g.below(1000)}); }
+      obs.push_back({4, 0, P, 0, (long long)g.below(1000)}); obs.push_back({4, 1, P, 0, (long long)g.below(1000)});
+      obs.push_back({2, P, 0, 1, (long long)g.below(1000)});
     }
     int extra = (int)g.range(0, 5);
-    for (int i = 0; i < extra; i++) { long long a = (long long)g.below(np), b = (long long)g.below(np), c = (long long)g.below(np); if (a == b) b = (b + 1) % np; if (c == a || c == b) c = (c + 1) % np; if (c == a || c == b) c = (c + 1) % np; obs.push_back({(long long)g.below(6), a, b, c, (long long)g.below(100000)}); }
+    for (int i = 0; i < extra; i++) { long long a = (long long)g.below(np), b = (long long)g.below(np), c = (long long)g.below(np); if (a == b) b = (b + 1) % np; if (c == a || c == b) c = (c + 1) % np; if (c == a || c == b) c = (c + 1) % np; obs.push_back({(long long)g.below(6), a, b, c, (long long)g.below(1000)}); }
     std::stable_sort(obs.begin(), obs.end(), [](const O& x, const O& y) { return x.from < y.from; });
     for (auto& o : obs) stk("ko", {o.kind, o.from, o.to, o.third, o.v});
     for (int P = 3; P < np; P++) if (g.chance(1, 2)) stk("kh", {(long long)g.below(3), P, (long long)g.below(1000)});
